@@ -117,6 +117,13 @@ func (c *Ctx) Count(name string, n int64) {
 	c.mu.Unlock()
 }
 
+// CounterValue returns the current value of a counter of this case.
+func (c *Ctx) CounterValue(name string) int64 {
+	c.mu.Lock()
+	defer c.mu.Unlock()
+	return c.counters[name]
+}
+
 // Sample writes out an actual case so a reader of the evidence can see what cases look like.
 // Only the first two samples of a case are forwarded.
 func (c *Ctx) Sample(v any) {
